@@ -662,6 +662,9 @@ func (f *Frame) intrinsic(name string, callee *ssa.Function, args []Val, pos tok
 		return Val{T: types.Typ[types.Bool], S: fmt.Sprintf("(ite (fp.isNaN %s) %s (fp.isNegative %s))", args[0].S, nd, args[0].S)}, true
 	case "sync/atomic.LoadPointer", "sync/atomic.LoadUint64", "sync/atomic.LoadInt64", "sync/atomic.LoadUint32", "sync/atomic.LoadInt32", "sync/atomic.LoadUintptr":
 		c.note("sync/atomic operations modelled with sequentially consistent single-thread semantics")
+		if len(args[0].Alts) > 0 {
+			return f.loadAlts(f.derefAlts(args[0], pos, "atomic.Load"), callee.Signature.Results().At(0).Type()), true
+		}
 		p := f.ptrPath(args[0], pos, "atomic.Load")
 		return f.loadVal(p, callee.Signature.Results().At(0).Type()), true
 	case "sync/atomic.StorePointer", "sync/atomic.StoreUint64", "sync/atomic.StoreInt64", "sync/atomic.StoreUint32", "sync/atomic.StoreInt32", "sync/atomic.StoreUintptr":
